@@ -174,6 +174,11 @@ THEOREMS = [
     ("shutdown_without_client_finishes",
      "forall (st : lts_state fx_state) (k : N), conn_get k (l_conns st) = Some (PGone (B \"shutdown\") false) -> "
      "fx_acks (l_env st) = 0 -> fx_finished (l_env (fx_lstep st (EHandle k))) = true /\\ l_listener (fx_lstep st (EHandle k)) = Closed"),
+    ("wait_after_shutdown_refuted",
+     "let evs := [EConnect 1; EConnect 2; ESend 2 (B \"shutdown\"); EFin 2; EHandle 2; ESend 1 (B \"wait\"); EFin 1; EHandle 1] in "
+     "conn_get 1 (l_conns (lrun fx_plugins_chk_v0 fx_blocked fx_env_step fx_ack (lts_init fx_init) evs)) = Some (PReplied []) /\\ "
+     "conn_get 1 (l_conns (lrun fx_plugins_chk fx_blocked fx_env_step fx_ack (lts_init fx_init) evs)) = Some (PReplied (B \"ok\")) /\\ "
+     "~ plugins_total fx_plugins_chk_v0"),
     ("post_send_skipped_refuted",
      "exists evs, let st := lrun_v0 fx_plugins_chk fx_blocked fx_env_step fx_ack (lts_init fx_init) evs in "
      "fx_shutdown (l_env st) = true /\\ forall evs', "
@@ -209,14 +214,38 @@ RULE = ("(a) direct calls of kvarn_utils::encode_quoted_str / quoted_str_split /
         "0.1-1 ms is typical), a non-empty reply beginning with ok or error (requests that are meant to wait excepted); not UTF-8 / "
         "unknown command => error; ping and the echo plugins return exactly the arguments sent on that connection; the counter plugin "
         "counts every request once; a connection is refused only after a closing request or the shutdown; the final ping is answered. "
+        "(e) the REAL kvarnctl binary (ctl/src/main.rs, built from the repo under test into harness/target-ctl on every run): `kvarnctl -s <socket> -- "
+        "<command> <args...>` as a process against a running instance, ALL argument vectors with one argument up to length 2 and two arguments up to "
+        "length 1 over {a, SP, \", ', \\}, seeded Unicode vectors, unknown commands, plugin errors, binary / empty replies, closing commands and a dead "
+        "socket; exit status and stdout against the model (client_outcome), against the specification 'ping prints its arguments joined by one space' "
+        "and a model-free oracle. (f) `clear` against an instance that serves a port with 1-5 hosts of arbitrary names (spaces, quotes, backslashes, "
+        "Unicode, a host literally called default), each with a file cache (arbitrary keys) and a response cache filled through the real request "
+        "pipeline (kvarn::handle_cache, a handler that counts its calls, pages cached with and without their query): clear file / response / all / "
+        "files / responses with the exact, mutated, swapped, empty and default host and key, valid and invalid targets; after EVERY request the caches "
+        "are read back and compared with the model (Collection::clear_file / clear_page / clear_*_caches and http's path-and-query scanner) AND with "
+        "a specification computed from the fixture and the typed arguments alone (exactly the typed entry of the typed host is gone, the reply is ok "
+        "iff it was cached); finally every page is requested again and the handlers' call counts are compared. http's scanner alone (ctl.uri): all "
+        "strings up to length 4 (thorough: 5) over {/, a, ?, #, SP, \", %, <, {, *, DEL, e-acute} + random. "
+        "(g) listener life cycle: the socket file is removed while connections are pending (re-listen observed through /proc/net/unix, then ping; "
+        "repeated; after a closing request nothing is re-bound); every free file descriptor of the process is taken while a client connects "
+        "(accept() fails with EMFILE), then released: that connection and the next ones are answered; clients that close the connection after "
+        "sending `shutdown` / a closing command / `reload wait` (Manager::wait must still resolve: step 'finished'); requests on connections "
+        "accepted before a shutdown and completed after it; clients that wait 1.2 s (thorough: 6.5 and 11 s) before, in the middle of and after "
+        "their request; 300 (thorough: 1000) connections pending at once. (h) kvarn's OWN reload plugin (component ctl.reload, in a child process "
+        "whose arg0 is a script that counts how often it is started): reload, reload <junk>, reload wait (pending until the shutdown), counts. "
+        "Replies are compared with the model by CLASS where the property does not fix the text (status word, close, echoed payload; kvarn's "
+        "message wording is not compared), exactly for ping / the echo plugins / counters. "
         "distinct_nontrivial counts distinct (component, input, model outcome) triples whose input contains a space, a quote, a backslash or "
         "an empty string (direct part), every session, and every UTF-8 case with a byte >= 0x80")
 ASSUMPTIONS = [
     "strings are lists of code points; the theorems hold for all lists of naturals, a superset of Rust strings; UTF-8 statements assume "
     "Unicode scalar values (what a Rust char is)",
     "one request = everything the client wrote before shutting down its write side, one reply = everything the server wrote before dropping "
-    "the connection (kvarn_signal's read_to_end framing, non-uring build); partial writes, the 100 ms re-listen after the socket file is "
-    "deleted, and the close sent by a shutdown initiated elsewhere are not modelled",
+    "the connection (kvarn_signal's read_to_end framing, non-uring build); partial writes are not modelled. The socket file's removal is two "
+    "events (EUnlink: nobody can connect; ERelisten: the accept loop has bound the path again); the 100 ms + 100 ms that pass in between are "
+    "not modelled (the harness waits until /proc/net/unix shows the new listener), nor is the instant between bind() and the registration "
+    "of the inotify watch, in which a removal would go unnoticed (the harness waits until /proc/self/fdinfo shows the watch), nor "
+    "connections that sit in the old listener's backlog when it is dropped",
     "concurrency is modelled as interleaving: the listener is a transition system whose events (connect, send, half-close, handler step, "
     "environment) each concern one connection; a handler step is atomic (plugins are functions (arguments, state) -> (response, state), a "
     "plugin that awaits something is 'blocked' until the state allows it); socket_never_wedged / accept_never_blocked quantify over all "
@@ -225,22 +254,38 @@ ASSUMPTIONS = [
     "state-dependent request (t-count, closing commands) in flight, so that every schedule gives the same replies",
     "promptness is a bounded wait in the run (6 s per reply, KV_C19_WAIT_MS), not a theorem: the theorems say the reply step is enabled "
     "and independent of the other connections; that tokio runs a spawned task is trusted",
-    "post_send callbacks are not modelled. reload is replaced by a harmless plugin in the harness (it would re-execute the harness "
-    "binary); wait is replaced in the sequential sessions and is kvarn's own in the concurrent ones. A plugin that panics is outside the "
-    "property (reply_total assumes plugins_total; the built-in ping is proved total, the others are total by construction)",
-    "clear is modelled for an instance without ports (no host collection is consulted); http's Uri parser is a parameter uri_ok, "
-    "instantiated in the run by 'starts with / and consists of [a-z0-9/._-]' and only such paths are generated",
+    "post_send is modelled as what the built-in plugins use it for: acknowledging the pre-shutdown phase (pr_ack; shutdown without no-wait, "
+    "reload wait); the shutdown manager is reduced to 'Manager::wait resolves when a shutdown was initiated and no acknowledgement is due' "
+    "(instances without ports / without open HTTP connections). reload is kvarn's own only in ctl.reload (child process with a harmless arg0), "
+    "elsewhere it is replaced; wait is replaced in the sequential sessions and is kvarn's own in the concurrent ones. A user plugin that panics "
+    "is outside the property (reply_total assumes plugins_total: proved for the fixture's table incl. ping; the built-in wait was NOT total before "
+    "its repair: wait_after_shutdown_refuted)",
+    "clear: the sequential sessions run on an instance without ports (clear_plugin, uri_ok = the generator's [a-z0-9/._-] paths); ctl.hosts runs "
+    "on an instance with one port (clear_hosts_plugin over a list of host collections; clear_without_ports ties the two). Host names are the "
+    "keys of a map: the run uses distinct names and no alternative names; Host::name lookups are exact string comparisons. Debug formatting "
+    "({:?}) of the success message `cleared <path> from <host>` is a parameter dbg of the model (debug_str in the run: right for printable "
+    "characters; for other strings only status word and cache effect are compared)",
     "Debug formatting ({arg:?}) in shutdown's error message is modelled for strings without control / non-printable characters; the "
     "generator uses printable ASCII there",
-    "kvarnctl's message construction lives in a binary crate's main(); the harness repeats its fold statement for statement (quoted.client) "
-    "and the thorough tier runs the real kvarnctl binary against the socket",
+    "kvarnctl: the real binary is run in BOTH tiers (component ctl.binary) with `--` before the command (so that any string is a positional "
+    "argument) and without flags; its clap front end, -q / -i / --wait / -c and the exit statuses 2 (I/O error) and 4 are not exercised by "
+    "theorems (client_outcome models the reply reading; 4 and 5 are in the model, reached by no plugin of the fixture). quoted.client still "
+    "repeats the fold of main() statement for statement for the exhaustive sweep. Arguments containing NUL cannot be passed to a process",
+    "a bounded wait that ran out is re-checked once: the whole script is run again on a fresh instance with three times the wait, and that "
+    "second run is what is compared; an instance that cannot be started is retried twice and then reported as not executed ((L (N 93)), named "
+    "in coverage.not_executed_cases; more than 3 such cases make the run a harness error)",
     "after a closing response the harness waits until the kernel no longer lists the listening socket (/proc/net/unix) before it sends the "
     "next request: the short window in which the accept loop has not yet seen the close message is outside the property",
 ]
 TRUSTED = ["modelled: utils/src/lib.rs encode_quoted_str, QuotedStrSplitIter::next, join; src/ctl.rs listen (handler closure, reply framing, "
-           "with every slice / String::remove explicit as str_slice_chk / str_remove_chk / frame_chk), with_ping, with_shutdown, with_clear "
-           "(argument handling), with_wait (blocked until shutdown); signal/src/lib.rs start_at accept loop and per-connection task "
-           "(Listening/Closed, connection phases refused / open / complete / replied); ctl/src/main.rs message construction and reply reading",
+           "with every slice / String::remove explicit as str_slice_chk / str_remove_chk / frame_chk), with_ping, with_shutdown (incl. its "
+           "post_send), with_clear (argument handling AND its calls into the host collections), with_wait (blocked until shutdown), with_reload "
+           "(argument handling, re-execution counted, post_send); src/host.rs Collection::clear_file / clear_page / clear_file_caches / "
+           "clear_response_caches / get_host / get_default and src/comprash.rs UriKey as sets of keys per host; http-1.5.0 scan_path_and_query / "
+           "PathAndQuery::path / query / Uri::path / Builder::path_and_query (Model/CtlHosts.v uri_parts, run against the real one); "
+           "signal/src/lib.rs start_at accept loop and per-connection task (Listening / Unlinked / Closed, accept errors, connection phases "
+           "refused / open / complete / replied / gone, post_send after the write attempt); ctl/src/main.rs message construction, reply reading, "
+           "exit status and stdout (the real binary is run)",
            "byte-index slicing of a &str/String: every site in src/ctl.rs, signal/src/lib.rs and the quoting code of utils/src/lib.rs was "
            "inspected -- the only one is data.remove(0) in with_ping (modelled, proved safe); data[..prepend.len()] is on a Vec<u8>",
            "/proc/net/unix is used by the harness only to wait for the listener's start and stop"]
@@ -700,6 +745,11 @@ def listener_sessions(rng, quick):
     out.append(conc([st(OP_REQ, 1, b"ping a"), st(OP_OPEN, 2), st(OP_WRITE, 2, b"shutdown"), st(OP_DROP, 2), st(OP_FINISHED, 0),
                      st(OP_REQ, 3, b"ping late")], "conc-gone-client"))
     out.append(conc([st(OP_SEND, 1, b"wait"), st(OP_OPEN, 2), st(OP_WRITE, 2, b'"shutdown"'), st(OP_DROP, 2), st(OP_FINISHED, 0), st(OP_AWAIT, 1)],
+                    "conc-gone-client"))
+    # requests on connections that were accepted before the shutdown and are handled after it
+    out.append(conc([st(OP_OPEN, 1), st(OP_OPEN, 3), st(OP_OPEN, 4), st(OP_OPEN, 5), st(OP_REQ, 2, b"shutdown"), st(OP_FINISHED, 0), st(OP_WRITE, 1, b"wait"),
+                     st(OP_FIN, 1), st(OP_AWAIT, 1), st(OP_WRITE, 3, b"shutdown"), st(OP_FIN, 3), st(OP_AWAIT, 3), st(OP_WRITE, 4, b"ping late"),
+                     st(OP_FIN, 4), st(OP_AWAIT, 4), st(OP_WRITE, 5, b"wait x"), st(OP_FIN, 5), st(OP_AWAIT, 5), st(OP_REQ, 6, b"ping refused")],
                     "conc-gone-client"))
     out.append(conc([st(OP_REQ, 1, b"shutdown"), st(OP_FINISHED, 0)], "conc-gone-client"))
     out.append(conc([st(OP_REQ, 1, b"shutdown no-wait"), st(OP_FINISHED, 0)], "conc-gone-client"))
@@ -1478,14 +1528,30 @@ LEVEL_TEXT = ("Machine-checked Coq theorems over a code-point-level model of enc
               "every event sequence of the other connections and the environment, a connection whose request is complete keeps it and, as "
               "soon as its handler is not blocked, gets its reply by its own step, which changes no other connection; accept_never_blocked "
               "-- a new connection is accepted and read whatever the others do; clients_cannot_close; rejected requests get the same "
-              "error reply at whatever point of the interleaving they are handled. The model is tied to /repo on every run by a differential run of the "
+              "error reply at whatever point of the interleaving they are handled. Strengthening 2: plugin_sees_typed_arguments -- for EVERY plugin "
+              "table, plugin name, state and argument vector of Unicode scalar values, kvarnctl's message makes the handler call that plugin with "
+              "exactly those arguments; clear file / clear response on an instance with any ports and hosts: the state afterwards is "
+              "Collection::clear_file / clear_page applied with the host and path as typed (clear_*_sees_typed_target), which remove exactly the typed "
+              "key (the two keys of the typed path-and-query, parsed by a transcription of http's scanner) from the cache of the designated host "
+              "and nothing else, for every host name and key (clear_*_removes_exactly, named_host_is_the_typed_one), reply ok iff it was cached; "
+              "the portless model is the special case (clear_without_ports); the real kvarnctl's stdout and exit status (kvarnctl_ping_prints, "
+              "kvarnctl_exit_status: 0 exactly for a plugin's Ok, 1 for not-UTF-8 / unknown / plugin error, 6 for a binary reply); the socket file's "
+              "removal and the re-listen restore exactly the previous state (socket_survives_unlink, unlinked_refuses_then_accepts_again), a closed "
+              "listener stays closed (closed_listener_is_final), a failed accept() changes nothing (accept_error_is_harmless), the task of a "
+              "connection whose client has gone away has the same effects incl. post_send (post_send_runs_without_client, "
+              "shutdown_without_client_finishes). Three statements were FALSE of the code as found and are proved refuted on its faithful model, "
+              "reproduced on the real code and repaired (fixed: lines in known-findings.txt): accept_error_ended_the_socket_refuted, "
+              "post_send_skipped_refuted, wait_after_shutdown_refuted. The model is tied to /repo on every run by a differential run of the "
               "real functions (bounded-exhaustive over {a, SP, \", ', \\} + random Unicode) and of real unix-socket sessions against a running "
-              "kvarn instance, sequential and with several connections pending at once, long requests around every length constant, "
-              "plus model-independent oracles on every reply.")
+              "kvarn instance, sequential and with several connections pending at once, long requests around every length constant, the real "
+              "kvarnctl binary as a process, an instance with hosts and caches for clear, kvarn's own reload in a child process, socket-file removal, "
+              "descriptor exhaustion, vanished and slow clients, plus model-independent oracles on every reply and on the caches.")
 LEVEL_NOTE = ("Trusted: Coq kernel, extraction (ExtrOcamlBasic) reduced by an in-kernel recheck sample, the hand transcription of "
               "utils/src/lib.rs, src/ctl.rs, signal/src/lib.rs and ctl/src/main.rs into Model/Quoted.v and Model/Ctl.v as validated by the "
               "differential run; tokio / the kernel's unix sockets are outside the theorems (read_to_end framing and 'a spawned task runs' assumed; promptness is "
               "checked by the run with a 6 s bound, not proved). Single tokens longer than 16 KiB are only run split into tokens of 700 bytes "
               "(the model's splitter is quadratic in the token length); messages up to 64 KiB + are run. "
-              "The model describes the code after the repair of the empty-argument defect (fixed: line in known-findings.txt). No axioms.")
+              "The model describes the code after the repairs of the empty-argument defect, the accept-error defect, the skipped post_send and the "
+              "panicking wait (fixed: lines in known-findings.txt); the code before the last three is lstep_v0 / fx_plugins_chk_v0. Not modelled: "
+              "kvarnctl's flags, the uring build of kvarn_signal, the watcher's timing, partial writes. No axioms.")
 TECHNIQUE = "Coq proof (model satisfies the round-trip and dispatch specification for all inputs and histories) + differential correspondence model vs. implementation"
